@@ -18,7 +18,7 @@ from ..rustscan import ExtractError, enum_variants, read, mask, block_after, mat
 
 BOOL_FEATURES = ["use_fetch", "set_ops_distinct", "except_all", "intersect_all", "has_concat_function", "stars_in_group", "supports_distinct_on",
                  "supports_zero_columns", "prefers_subquery_parentheses_shorthand", "requires_order_by_in_window_function"]
-OTHER_FEATURES = ["ident_quote", "ident_quoting_style", "column_exclude"]
+OTHER_FEATURES = ["ident_quote", "ident_quoting_style", "column_exclude", "limit_for_bare_offset"]
 # trait methods that are not boolean/char/enum feature flags (algorithms with arguments): deliberately not translated
 NOT_FEATURES = ["interval_quoting_style", "translate_prql_date_format", "translate_chrono_item", "translate_sql_array"]
 
@@ -74,10 +74,16 @@ def simple_value(name, body, mbody):
     if mm:
         return ("quoting", mm.group(1))
     if code_m == "None":
-        return ("exclude", None)
+        return ("none", None)
     mm = re.fullmatch(r"Some\(ColumnExclude::([A-Za-z]+)\)", code_m)
     if mm:
         return ("exclude", mm.group(1))
+    if re.fullmatch(r'Some\("\s*"\)', code_m):
+        # string literal: content blanked in the mask; read it from the source text (comments removed)
+        ms = re.search(r'Some\("((?:[^"\\]|\\.)*)"\)', re.sub(r"//[^\n]*", "", body))
+        if not ms or "\\" in ms.group(1):
+            raise ExtractError("%s: cannot read string literal" % name)
+        return ("some_str", ms.group(1))
     raise ExtractError("method %s: body is not a literal / simple expression: %r" % (name, code_m[:80]))
 
 
@@ -160,9 +166,15 @@ def extract_dialects():
             raise ExtractError("ident_quoting_style of %s" % v)
         d["always_quoted"] = x == "AlwaysQuoted"
         k, x = resolve(handler[v], "column_exclude")
-        if k != "exclude" or x not in (None, "Exclude", "Except"):
+        if k not in ("exclude", "none") or x not in (None, "Exclude", "Except"):
             raise ExtractError("column_exclude of %s" % v)
         d["column_exclude"] = {None: 0, "Exclude": 1, "Except": 2}[x]
+        k, x = resolve(handler[v], "limit_for_bare_offset")
+        if k not in ("some_str", "none"):
+            raise ExtractError("limit_for_bare_offset of %s" % v)
+        if x is not None and not re.fullmatch(r"-?\d+", x):
+            raise ExtractError("limit_for_bare_offset of %s is not an integer spelling: %r" % (v, x))
+        d["limit_for_bare_offset"] = x
         feats[n] = d
     # the documented set-operation matrix (trailing comment of the file)
     mt = re.search(r"\| SQL construct\s*\|([^\n]*)\n\|[-| ]*\n((?:\|[^\n]*\n)+)", src)
@@ -276,16 +288,18 @@ def generate():
     v += "From Coq Require Import List NArith Bool.\nImport ListNotations.\nLocal Open Scope N_scope.\n\n"
     v += "Record feat := mkFeat { use_fetch : bool; ident_quote : N; always_quoted : bool; column_exclude : N (* 0 none, 1 EXCLUDE, 2 EXCEPT *);\n"
     v += "  set_ops_distinct : bool; except_all : bool; intersect_all : bool; has_concat_function : bool; stars_in_group : bool;\n"
-    v += "  supports_distinct_on : bool; supports_zero_columns : bool; prefers_paren : bool; requires_order_by_in_window : bool }.\n\n"
+    v += "  supports_distinct_on : bool; supports_zero_columns : bool; prefers_paren : bool; requires_order_by_in_window : bool;\n"
+    v += "  bare_offset_limit : option (list N) (* limit_for_bare_offset: spelling of the LIMIT emitted with a bare OFFSET *) }.\n\n"
     v += "(* (dialect name, features after resolving handler(), trait defaults and overrides) in enum order *)\n"
     rows = []
     for n in info["names"]:
         f = info["feats"][n]
-        rows.append("(%s (* %s *), mkFeat %s %d %s %d %s %s %s %s %s %s %s %s %s)" % (
+        rows.append("(%s (* %s *), mkFeat %s %d %s %d %s %s %s %s %s %s %s %s %s %s)" % (
             codes(n), n, coq_bool(f["use_fetch"]), ord(f["ident_quote"]), coq_bool(f["always_quoted"]), f["column_exclude"],
             coq_bool(f["set_ops_distinct"]), coq_bool(f["except_all"]), coq_bool(f["intersect_all"]), coq_bool(f["has_concat_function"]),
             coq_bool(f["stars_in_group"]), coq_bool(f["supports_distinct_on"]), coq_bool(f["supports_zero_columns"]),
-            coq_bool(f["prefers_subquery_parentheses_shorthand"]), coq_bool(f["requires_order_by_in_window_function"])))
+            coq_bool(f["prefers_subquery_parentheses_shorthand"]), coq_bool(f["requires_order_by_in_window_function"]),
+            "None" if f["limit_for_bare_offset"] is None else "(Some %s)" % codes(f["limit_for_bare_offset"])))
     v += "Definition feats : list (list N * feat) :=\n  [ " + ";\n    ".join(rows) + " ].\n\n"
     v += "(* operators of std.sql.prql: (dialect module, [] = root; operator path; body is null; body: Some text chunk | None = hole) *)\n"
     rows = []
